@@ -283,7 +283,8 @@ impl LogInnerManager {
         loop {
             let read_len = file.read(&mut buffer).await?;
             if read_len == 0 {
-                return Ok((data_cursor, msg_count));
+                // end of file without a zero terminator: the complete records scanned so far still count
+                return Ok((data_cursor, msg_count + c));
             }
             reader.append_next_buf(&buffer[..read_len]);
             while let Some(v) = reader.next_message_vec() {
